@@ -80,14 +80,15 @@ func (g *Gen) KeyIDs() [][2]string {
 			continue
 		}
 		s := spell[a][g.R.Intn(len(spell[a]))]
-		out = append(out, [2]string{s, fmt.Sprintf("slot-%d-%s", a, core.Pick(g.R, "a", "b", "é", `q"`))})
+		out = append(out, [2]string{s, fmt.Sprintf("slot-%d-%s", a, core.Pick(g.R, "a", "b", "é", `q"`, "$2024", "${HOME}", "$USER x", "$$", "%s\\n"))})
 	}
 	g.R.Shuffle(len(out), func(i, j int) { out[i], out[j] = out[j], out[i] })
 	return out
 }
 
+// FullKeyIDs: slot names as operators write them - with '$', braces, blanks
 func FullKeyIDs() [][2]string {
-	return [][2]string{{"default", "id-default"}, {"rsa", "id-rsa"}, {"ECDSA", "id-ecdsa"}, {"4", "id-ed25519"}, {"dsa", "id-dsa"}}
+	return [][2]string{{"default", "id-default"}, {"rsa", "ssh-user-key$2024-rsa"}, {"ECDSA", "id-ecdsa${HOME}"}, {"4", "$USER-ed25519 key"}, {"dsa", "id-dsa$"}}
 }
 
 func (g *Gen) Regular(validity *uint64, keyids [][2]string) HandlerSpec {
